@@ -336,3 +336,15 @@ func genJunk(t *rapid.T) []int {
 	}
 	return rapid.SliceOfN(rapid.SampledFrom([]int{0, 1, -1, 7, 99, -1 << 31, 1 << 40}), 1, 4).Draw(t, "junkargs")
 }
+
+// genLayout draws a random layout; tape bytes are biased towards 0 (the canonical choice).
+func genLayout(t *rapid.T) Layout {
+	lay := Layout{
+		Unit:      rapid.SampledFrom([]int{4, 4, 2, 1, 3, 8, 0, 0, -1}).Draw(t, "unit"),
+		CRLF:      rapid.IntRange(0, 3).Draw(t, "crlf") == 0,
+		FlatIf:    rapid.IntRange(0, 2).Draw(t, "flatif") == 0,
+		NoFinalNL: rapid.IntRange(0, 4).Draw(t, "nofinalnl") == 0,
+	}
+	lay.Tape = rapid.SliceOfN(rapid.SampledFrom([]uint8{0, 0, 0, 0, 0, 1, 2, 3, 4, 5, 6, 7, 9, 13}), 0, 120).Draw(t, "tape")
+	return lay
+}
